@@ -188,11 +188,11 @@ template <class PS> void add_pset_ops(ObjHarness<PS>& H) {
     PREPF { D* x = e.o[0]; dimension_type k = (dimension_type) c.mod((long) x->space_dimension() + 1); return [x, k]() { x->remove_higher_space_dimensions(k); return std::string(); }; } });
   // ------------------------------------------------------------ predicates
   H.add({ "geometrically_covers", 2, F_OBS | F_ANS | F_FAULT | F_SAMEDIM, 5, NOGEN,
-    PREPF { D* x = e.o[0]; const D* y = e.o[1]; return [x, y]() { bool b = x->geometrically_covers(*y);
+    PREPF { D* x = e.o[0]; const D* y = e.o[1]; if (!geometric_compare_affordable(*x, *y)) return skip_call(); return [x, y]() { bool b = x->geometrically_covers(*y);
               if (g_def.active && b && !subset(bits_of(*y), bits_of(*x))) def_violation("covers-unsound", "geometrically_covers is true but a point of the argument is not in the receiver");
               return b2s(b); }; } });
   H.add({ "geometrically_equals", 2, F_OBS | F_ANS | F_FAULT | F_SAMEDIM, 4, NOGEN,
-    PREPF { D* x = e.o[0]; const D* y = e.o[1]; return [x, y]() { bool b = x->geometrically_equals(*y);
+    PREPF { D* x = e.o[0]; const D* y = e.o[1]; if (!geometric_compare_affordable(*x, *y)) return skip_call(); return [x, y]() { bool b = x->geometrically_equals(*y);
               if (g_def.active && b && bits_of(*y) != bits_of(*x)) def_violation("equals-unsound", "geometrically_equals is true but the unions differ on a probe point");
               return b2s(b); }; } });
   H.add({ "contains", 2, F_OBS | F_FAULT | F_SAMEDIM, 4, NOGEN,
